@@ -32,3 +32,72 @@ Definition c06_im (c : c06_case) : bool :=
 Definition c06_is (c : c06_case) : bool :=
   let '(nw, n, stages, t, tp) := snd (fst c) in
   obs_eqb (pipe_seq n stages t tp) (snd c).
+
+(* ---- the lazy family: map / accept / number stages in front of a short-circuit consumer (Conc/LazyPipe.v) ---------- *)
+From P2 Require Import Conc.LazyPipe.
+
+Inductive lcons := LCFirst | LCTop (n : Z) | LCPresent (v : Z) | LCIndexWhere (v : Z) | LCSingle.
+
+(* continue | stop with the canonical observation (None: the consumer itself reports an error) *)
+Definition lc_fun (c : lcons) (l : list Z) : option (option (list Z)) :=
+  match c with
+  | LCFirst => match l with x :: _ => Some (Some [x]) | [] => None end
+  | LCTop n => if Nat.leb (Z.to_nat n) (length l) then Some (Some l) else None
+  | LCPresent v => if Z.eqb (last l 0) v then Some (Some [1]) else None
+  | LCIndexWhere v => if Z.eqb (last l 0) v then Some (Some [Z.of_nat (length l) - 1]) else None
+  | LCSingle => if Nat.leb 2 (length l) then Some None else None
+  end.
+(* the stream ended before the consumer had enough *)
+Definition lc_end (c : lcons) (l : list Z) : option (list Z) :=
+  match c with
+  | LCFirst => None
+  | LCTop _ => Some l
+  | LCPresent _ => Some [0]
+  | LCIndexWhere _ => Some [-1]
+  | LCSingle => match l with [x] => Some [x] | _ => None end
+  end.
+Definition lc_obs (c : lcons) (L : list (res Z)) : option (list Z) :=
+  match scan (lc_fun c) L with VResult r => r | VFail => None | VMore => lc_end c (ok_prefix L) end.
+
+(* the schedule inputs of the run: the observed switch, NumCPU workers, a seeded schedule completed canonically;
+   the consumer of the last stage is the short-circuit consumer, the inner stages are not stopped (the stop moments are
+   inputs of the model: pipeline_par_early_stop_prefix covers every choice; the coupled run lazy_run costs
+   (list length)^(stages) evaluations of the stop predicate) *)
+Definition lazy_pp (nw : N) (p : sp) (l : list (res Z)) : par_params :=
+  mkPP measure_items (psw p) (N.to_nat nw) (gen_sched (3 * length l) nw (pseed p)) [].
+Definition lstage_pp (nw : N) (s : lstage) (items : list (res Z)) : par_params :=
+  match s with
+  | LMap p | LAccept p => lazy_pp nw p items
+  | LScan _ _ => mkPP 0 false 1 [] []       (* runs on the goroutine that calls its yield: no schedule inputs *)
+  end.
+Fixpoint lazy_model (nw : N) (cstop : list (res Z) -> bool) (stages : list lstage) (items : list (res Z)) : list (res Z) :=
+  match stages with
+  | [] => items
+  | [s] => fst (lstage_fin (mkLP (lstage_pp nw s items) cstop) s items)
+  | s :: r => lazy_model nw cstop r (fst (lstage_fin (mkLP (lstage_pp nw s items) (fun _ => false)) s items))
+  end.
+
+(* id, (workers, n, stages, consumer), observation (None = evaluation failed) *)
+Definition c06l_case := (N * (N * Z * list lstage * lcons) * option (list Z))%type.
+Definition c06l_id (c : c06l_case) : N := fst (fst c).
+
+Definition is_none {X} (o : option X) : bool := match o with None => true | Some _ => false end.
+
+(* implementation = sequential specification, or "fails" where the sequential element sequence contains an error
+   (pipeline_par_early_stop_eq_seq: an error of a read-ahead element may surface) *)
+Definition c06l_is (c : c06l_case) : bool :=
+  let '(nw, n, stages, k) := snd (fst c) in
+  let S := lazy_seq stages (map (@ROk Z) (numbers n)) in
+  obs_eqb (lc_obs k S) (snd c) || (is_none (snd c) && negb (noerr S)).
+
+(* model under the seeded schedule = implementation; where the outcome depends on the schedule (an error behind the
+   decisive element) both must be the sequential observation or "fails" *)
+Definition c06l_im (c : c06l_case) : bool :=
+  let '(nw, n, stages, k) := snd (fst c) in
+  let src := map (@ROk Z) (numbers n) in
+  let S := lazy_seq stages src in
+  let M := lazy_model nw (cons_stop (lc_fun k)) stages src in
+  obs_eqb (lc_obs k M) (snd c)
+  || (negb (noerr S) && negb (is_none (lc_obs k S))
+      && (obs_eqb (lc_obs k S) (snd c) || is_none (snd c))
+      && (obs_eqb (lc_obs k S) (lc_obs k M) || is_none (lc_obs k M))).
